@@ -671,6 +671,10 @@ def run_check(prop, tier, base_seed=None, budget_s=None, workers=None, runs=None
                     with open(os.path.join(tmpd, '%s.json' % prop)) as f:
                         oe = json.load(f)
                     agg['envpass'][mode] = {'runs': oe['coverage']['runs'], 'violated_clauses': oe['coverage'].get('violated_clauses', []), 'exit': rc}
+                    if mode == 'Threads':
+                        ff = oe['coverage'].get('faults_fired', {})
+                        agg['envpass'][mode]['preemptions_of_the_first_thread'] = int(ff.get('second-caller-thread.switches', 0))
+                        agg['envpass'][mode]['scheduler'] = 'baton-passing real threads; pre-emption points = line events in the library sources, chosen by the plan\'s PRNG (sim/duo.py)'
                 except (OSError, ValueError, KeyError):
                     agg['envpass'][mode] = {'runs': 0, 'exit': rc}
                 if rc == 1:
